@@ -1981,7 +1981,8 @@ def _mk_streak(seq):
                 sh[f] = ([rng.choice(_N_VALUES) for _ in range(rng.randint(0, 4))] if seq else rng.choice(_N_VALUES))
             log.loggees[tag] = sh
             log.fields[tag] = rng.sample(_N_FIELDS, rng.randint(0, 2)) if rng.random() < 0.5 else []
-        log.prepare()
+        if log.loggees:
+            log.prepare()          # (prepare() of a streak / deck log WITHOUT loggees raises IndexError)
         if log.loggees and rng.random() < 0.2:
             sh = list(log.loggees.values())[0]
             for f in list(sh.keys())[:1]:
